@@ -389,6 +389,7 @@ const JETS: &[(&str, Elements, Fam, &str)] = &[
     ("issuance_token_proof", Elements::IssuanceTokenProof, Fam::Input, "issuance_token_proof"),
     ("input_script_sig_hash", Elements::InputScriptSigHash, Fam::Input, "script_sig_hash"),
     ("input_annex_hash", Elements::InputAnnexHash, Fam::Input, "annex_hash"),
+    ("issuance", Elements::Issuance, Fam::Input, "issuance"),
     ("output_asset", Elements::OutputAsset, Fam::Output, "asset"),
     ("output_amount", Elements::OutputAmount, Fam::Output, "amount"),
     ("output_nonce", Elements::OutputNonce, Fam::Output, "nonce"),
@@ -592,6 +593,11 @@ fn expect_in(i: &MIn, u: &MUtxo, g: &str) -> Vec<bool> {
         }
         "script_hash" => sha(&u.spk),
         "sequence" => u32b(i.seq),
+        "issuance" => match iss_kind(i) {
+            IssKind::No => opt(None),
+            IssKind::New => opt(Some(vec![false])),
+            IssKind::Re => opt(Some(vec![true])),
+        },
         "reissuance_blinding" => opt((k == IssKind::Re).then(|| bits(&i.nonce))),
         "new_issuance_contract" => opt((k == IssKind::New).then(|| bits(&i.entropy))),
         "reissuance_entropy" => opt((k == IssKind::Re).then(|| bits(&i.entropy))),
